@@ -26,6 +26,7 @@ import (
 // slice reads AccessPaths or RelPath) must cover the first bytes of all producer
 // elements. A consumer that only uses prefix tests has nothing to discharge.
 func apGrammarRule(c *core.Ctx, r *core.Report, rule, pkgRel string) {
+	r.Explain(rule + ": the separators of the access-path grammar are the first bytes of the elements producers pass to dataflow.accessPathPrepend; a consumer in " + pkgRel + ".(*Visitor).addNext (helpers inlined) that inspects the character after a matched prefix of an access path must accept all of them; prefix-only consumers have nothing to discharge.")
 	// producers
 	seps := map[byte]bool{}
 	nProd := 0
